@@ -33,6 +33,7 @@ func main() {
 			"(4) directed histories around one compaction, same oracle: the index row of the receive that triggers the compaction is written only after the compaction looked it up (slow index); one transient failure of an index lookup made by a compaction goroutine (launched by a receive / by the start-up scan); a restart that keeps the index (fully, or minus a seeded third of its rows) followed by a compaction and then the loss of the index; wrapped stores that do not re-hash what they are given (localdisk) with writes that fail once after the body was consumed and a client that retries refused receives; thorough: one history of > 10,250 receives that makes a packed meta blob full (> 10,000 lines) with restarts before and after; "+
 			"(6) start-up scans (empty index) that meet ONE transient read failure of the wrapped meta store: its listing fails at once / after a seeded number of entries (1, all but one, enough for the scan to launch a compaction, random) / after the last entry / on the next page, or the fetch of one listed meta blob (seeded; also a packed one) fails or its body breaks off at a seeded offset, or one seeded write of a recovered row into the new index fails; over a meta store holding only small meta blobs, a packed one plus small ones, or more than 100 small ones; oracle: CreateStorage fails (then, whether the compaction launched by the refused scan was left to finish or cut off, the next fault-free creation must succeed) or the store it returned passes the restart oracle of (3); then a fault-free restart, more receives and another index loss, same oracle; "+
 			"(7) compactions that make more than one packed meta blob: the wrapped stores are preloaded (no store instance running) with harness-encrypted ciphertext blobs and 4-11 packed meta blobs of 1,100-5,000 lines, or 100/101 of 40-750 lines, 10,000-17,000 lines in all; the store created over them must serve every preloaded blob (else inconclusive); then real receives up to the 101st small-meta heap entry (or the start-up scan itself) launch a compaction whose line total passes 10,000 before the heap is drained, so that a packer is launched mid-way and the draining goes on (one meta blob put back / a second packer); when the packers ended: restart with the index lost, oracle of (3) over preloaded and received blobs; more receives, index lost again; "+
+			"(8) a FULL packed meta blob (10,001-12,000 lines, preloaded like (7), alone or beside a few small packed ones) that goes through a start-up scan and then lives beside later compactions: the store created over it must serve every preloaded blob (else inconclusive); more than 100 receives (in that incarnation, or after one more restart with the index lost) so that a compaction runs and ends beside the full meta blob; restart with the index lost, oracle of (3) over preloaded and received blobs (the blobs of the lines beyond the 10,000th are always fetched too); a second compaction, index lost again; "+
 			"(5) everything HANDED to the wrapped stores (names and bodies of writes before any fault decides their fate, names given to Fetch/StatBlobs/RemoveBlobs, enumeration cursors) is scanned like (1). "+
 			"distinct = tamper case id (store, class, target blob, position/length/source) whose served bytes differ from the stored ones, or history (length, crash kind, restart sequence)",
 		run)
@@ -64,6 +65,10 @@ func run(r *ev.Run) {
 	for i := 0; fam("multibatch") && i < r.Pick(2, 2*len(multiBatchKinds)); i++ {
 		i := i
 		jobs = append(jobs, func() { runMultiBatch(r, root, i) })
+	}
+	for i := 0; fam("fullmeta") && i < r.Pick(1, len(fullMetaKinds)); i++ {
+		i := i
+		jobs = append(jobs, func() { runFullMeta(r, root, i) })
 	}
 	for i := 0; fam("tamperL") && i < r.Pick(1, 10); i++ {
 		i := i
@@ -178,6 +183,12 @@ func run(r *ev.Run) {
 	r.Require("multi_batch", mbk...)
 	r.Require("multi_batch_shapes", "packer-launched-mid-way/one-meta-blob-put-back", "packer-launched-mid-way/then-a-second-packer")
 	r.Require("restarts", "after-multi-batch-compaction", "final/after-multi-batch-compaction")
+	fmk := fullMetaKinds[:1]
+	if r.Thorough() {
+		fmk = fullMetaKinds
+	}
+	r.Require("full_meta", fmk...)
+	r.Require("restarts", "after-compaction-beside-a-full-meta-blob", "final/after-compaction-beside-a-full-meta-blob")
 	if r.Thorough() {
 		r.Require("restarts", "long/before-a-meta-blob-is-full", "long/after-a-meta-blob-became-full", "long/final")
 		r.Require("structures", "packed-meta/full(>10000 lines)")
